@@ -50,6 +50,11 @@ pub struct WalletSide {
   /// what the signing replies do to the next offer (consumed by finalizepsbt)
   pub sign_fault: Option<crate::scenario::SignFault>,
   pub sign_faults_fired: u64,
+  /// while a wallet command waits for confirmations: mine a block (with the
+  /// mempool) every n-th `gettransaction` poll; (n, blocks left)
+  pub mine_on_poll: Option<(u32, u32)>,
+  pub polls: u64,
+  pub blocks_mined_on_poll: u64,
 }
 
 pub fn wallet_script(wallet: &str, k: u32) -> ScriptBuf {
@@ -736,6 +741,29 @@ impl World {
         Ok(json!({"balance_change": bitcoin::SignedAmount::from_sat(change).to_btc()}))
       }),
       "gettransaction" => need_wallet(wallet).and_then(|_name| {
+        self.wallet_side.polls += 1;
+        if let Some((every, left)) = self.wallet_side.mine_on_poll
+          && left > 0
+          && self.wallet_side.polls % u64::from(every.max(1)) == 0
+        {
+          self.wallet_side.mine_on_poll = Some((every, left - 1));
+          self.wallet_side.blocks_mined_on_poll += 1;
+          self.mine(&crate::scenario::BlockSpec {
+            txs: Vec::new(),
+            coinbase: crate::scenario::CoinbaseSpec {
+              outputs: vec![crate::scenario::OutSpec {
+                weight: 1,
+                exact: None,
+                script: crate::scenario::ScriptSpec::P2tr(900),
+              }],
+              claim: crate::scenario::Claim::Full,
+              duplicate_of: None,
+            },
+            include_mempool: true,
+            mempool_limit: None,
+          });
+        }
+        let tip = self.tip_height();
         let txid: Txid = params
           .first()
           .and_then(|v| v.as_str())
@@ -766,6 +794,8 @@ impl World {
           "timereceived": 0,
           "details": [],
           "hex": serialize_hex(&tx),
+          "bip125-replaceable": "no",
+          "walletconflicts": [],
         });
         if let Some(h) = blockhash {
           v["blockhash"] = json!(h);
